@@ -212,6 +212,15 @@ PolyDivPure(a, m) == IF NormPure(m) = <<>> THEN <<>> ELSE PolyDivModRec(a, m, <<
 PolyMod(a, m) == PolyModPure(a, m)
 PolyDiv(a, m) == PolyDivPure(a, m)
 
+\* inverse of a modulo the irreducible polynomial m in GF(2)[z] (0 for 0): extended Euclid
+RECURSIVE PolyInvRec(_, _, _, _)
+PolyInvRec(r0, r1, t0, t1) ==
+    IF NormPure(r1) = <<>> THEN (IF NormPure(r0) = <<1>> THEN t0 ELSE <<>>)
+    ELSE LET q == PolyDivPure(r0, r1)
+         IN PolyInvRec(r1, PolyModPure(r0, r1), t1, BitXorPure(t0, ClMulPure(q, t1)))
+PolyInvModPure(a, m) == PolyModPure(PolyInvRec(NormPure(m), PolyModPure(a, m), <<>>, <<1>>), m)
+PolyInvMod(a, m) == PolyInvModPure(a, m)
+
 (* ---------------------------- representation ----------------------------- *)
 \* Tup(f) = f.  TLC keeps [i \in 1..n |-> e] as an unevaluated lambda whose body
 \* is re-evaluated at every application; chains of such functions (hash rounds)
